@@ -1465,6 +1465,14 @@ XSLTEngineImpl::flushPending()
                             m_stylesheetRoot->getOutputEscapeURLs() :
                             eEscapeURLs == StylesheetExecutionContext::eEscapeURLsYes;
 
+                    const StylesheetExecutionContext::eOmitMETATag  eOmitMETATag =
+                        m_executionContext->getOmitMETATag();
+
+                    const bool  omitMETATag =
+                        eOmitMETATag == StylesheetExecutionContext::eOmitMETATagDefault ?
+                            m_stylesheetRoot->getOmitMETATag() :
+                            eOmitMETATag == StylesheetExecutionContext::eOmitMETATagYes;
+
                     // Yuck!!! Ugly hack to switch to HTML on-the-fly.
                     setFormatterListenerImpl(
                         m_executionContext->createFormatterToHTML(
@@ -1477,7 +1485,8 @@ XSLTEngineImpl::flushPending()
                             theFormatter->getIndent() > 0 ?
                                 theFormatter->getIndent() :
                                 StylesheetExecutionContext::eDefaultHTMLIndentAmount,
-                            outputEscapeURLs));
+                            outputEscapeURLs,
+                            omitMETATag));
 
                     if (m_hasCDATASectionElements == true)
                     {
